@@ -459,6 +459,15 @@ class Run:
         if (rc != 0) != planned:
             raise Discard("unplanned_rc_%s" % ("error" if rc != 0 else "success"))
         es_ = meta["err_sim"]
+        if planned and es_ >= 1 and self.tag == "A":
+            # the plan says simulations 0..es_-1 complete: an unplanned (convergence) failure in one of them would be masked by the
+            # planned error.  Every simulation is self-contained, so a plain fresh instance decides it.
+            P = lib.fresh()
+            try:
+                if P.run_string("END\n".join(step["input"].split("END\n")[:es_]) + "END\n") != 0:
+                    raise Discard("unplanned_error_before_planned_error")
+            finally:
+                P.close()
         read = (lambda k: es_ is None or k <= es_)          # simulation k was read
         done = (lambda k: es_ is None or k < es_)           # simulation k ran to its end (DUMP executed)
 
